@@ -56,8 +56,11 @@ def job(sub, runtime, budget, named, links=False):
         claims = lo.failed_spawn_claims(I, a, s, s.trace, named)
         ends = [(e[2], e[4]) for e in s.trace if e[0] == 'CB' and e[1] == 'end']
         cancelled = any(e[0] == 'CB' and e[1] == 'cancelled' for e in s.trace)
-        refused = ('pre_start', 'ok') in ends
-        cause = 'refused_link' if refused else ('killed_during_start' if cancelled or not ends else 'pre_start_' + ends[0][1])
+        spawner_dead = any(e[0] == 'FX' and e[1] == 'spawner_dead' for e in s.trace)
+        failed_cb = [x for x in ends if x[1] in ('err', 'panic')]
+        # the link was refused: no callback failed, nothing was cancelled, and the path exists only for a supervisor that is shutting down
+        refused = (not failed_cb) and (not cancelled) and (not spawner_dead) and sub.solve(list(s.pc) + [z3.ULT(ss, 4)])[0] == 'unsat'
+        cause = 'refused_link' if refused else ('spawner_dead' if spawner_dead else ('killed_during_start' if cancelled or not ends else 'pre_start_' + ends[0][1]))
         causes.add(cause)
         claims['error_is_startup_failed'] = isinstance(v.fields[0], Enum) and v.fields[0].variant == 'StartupFailed'
         if refused:
